@@ -1,5 +1,6 @@
 """C06 - numerical-error and failure policies follow the documented state machine."""
 from contracts.c02_solve_t import SolveTContract
+from contracts.c05_solve import SolvePeriodContract
 from props.solve_bounded import SolveTScripted
 from verif.spec import PropertySpec
 
@@ -8,7 +9,7 @@ _c.shards = {'generic/offset0': 2, 'parser/offset0': 2, 'generic/offset': 6, 'pa
 
 PROPERTY = PropertySpec(
     id='C06',
-    contracts=[_c],
+    contracts=[_c, SolvePeriodContract()],
     bounded=[SolveTScripted()],
     level='other',
     explanation='Same symbolic execution of the real BaseModel.solve_t as C02, without the finiteness restriction: the ghost history '
